@@ -211,6 +211,25 @@ func runC17(c *an.Ctx) {
 
 	// ---- R6 mutators keep to their state
 	c17WriteSets(c)
+	// a rule selected by tag or message is updated where it was found: ids are optional (and 0 for every marker),
+	// so looking the rule up again by its id can land on another rule
+	for _, dn := range []string{"directiveSecRuleUpdateTargetByTag", "directiveSecRuleUpdateTargetByMsg", "directiveSecRuleUpdateActionByTag", "directiveSecRuleUpdateActionByMsg"} {
+		fn := c.FnOpt("internal/seclang." + dn)
+		if fn == nil {
+			continue
+		}
+		via := ""
+		for f := range c.P.Reachable(fn) {
+			if relPkg(f) != "internal/seclang" && relPkg(f) != "internal/corazawaf" {
+				continue
+			}
+			if f.Name() == "FindByID" && relPkg(f) == "internal/corazawaf" {
+				via = an.RelName(f)
+			}
+		}
+		c.Check(via == "", "R6", dn+" updates the rules it selected, without an id lookup", fn.Pos(), "FindByID is not reachable from it",
+			dn+" reaches "+via+": the rule found by tag/message is looked up again by its id, and for rules without an id (or sharing id 0 with every SecMarker) the update lands on the first rule with that id instead")
+	}
 
 	// ---- R5 removal predicates
 	if dr := c.Fn("R5", "internal/corazawaf.(*RuleGroup).DeleteByRange"); dr != nil {
